@@ -5,6 +5,7 @@ import (
 	"fmt"
 	"os"
 	"sort"
+	"strings"
 	"testing"
 	"time"
 
@@ -161,8 +162,9 @@ func batch(t *testing.T, spec *Spec) {
 		var res props.RunResult
 		keepSites := i%16 == 0
 		runIn(t, fmt.Sprintf("s%d", seed), func(t *testing.T) {
-			res = props.RunOne(t, spec.Prop, seed, sc, props.RunOpts{KeepSites: keepSites, KeepTrace: spec.KeepTrace})
+			props.RunOne(t, spec.Prop, seed, sc, props.RunOpts{KeepSites: keepSites, KeepTrace: spec.KeepTrace}, &res)
 		})
+		collectRaces(&res)
 		sum.Runs++
 		sum.LastIndex = index
 		sum.Steps += res.Steps
@@ -208,11 +210,21 @@ func batch(t *testing.T, spec *Spec) {
 			var res2 props.RunResult
 			sc2 := prop.Gen(seed, spec.Tier)
 			runIn(t, fmt.Sprintf("s%d-again", seed), func(t *testing.T) {
-				res2 = props.RunOne(t, spec.Prop, seed, sc2, props.RunOpts{})
+				props.RunOne(t, spec.Prop, seed, sc2, props.RunOpts{}, &res2)
 			})
 			sum.DetChecked++
 			if res2.TraceHash != res.TraceHash {
 				sum.DetMismatch = append(sum.DetMismatch, seed)
+				if dir := os.Getenv("VERIF_DEBUG_DET"); dir != "" {
+					for j := 0; j < 2; j++ {
+						var r3 props.RunResult
+						sc3 := prop.Gen(seed, spec.Tier)
+						runIn(t, fmt.Sprintf("s%d-dbg%d", seed, j), func(t *testing.T) {
+							props.RunOne(t, spec.Prop, seed, sc3, props.RunOpts{KeepTrace: true}, &r3)
+						})
+						os.WriteFile(fmt.Sprintf("%s/det-%d-%d.txt", dir, seed, j), []byte(strings.Join(r3.Trace, "\n")+"\n"+r3.TraceHash+" "+res.TraceHash+" "+res2.TraceHash+"\n"), 0o644)
+					}
+				}
 			}
 		}
 		if res.Leaked && sum.Leaked >= 50 {
@@ -253,8 +265,9 @@ func hashes(t *testing.T, spec *Spec) {
 		sc := prop.Gen(seed, spec.Tier)
 		var res props.RunResult
 		runIn(t, fmt.Sprintf("s%d", seed), func(t *testing.T) {
-			res = props.RunOne(t, spec.Prop, seed, sc, props.RunOpts{})
+			props.RunOne(t, spec.Prop, seed, sc, props.RunOpts{}, &res)
 		})
+		collectRaces(&res)
 		v := ""
 		if len(res.Violations) > 0 {
 			v = " V:" + res.Violations[0].Clause + "/" + res.Violations[0].Key
@@ -314,8 +327,9 @@ func replay(t *testing.T, spec *Spec) {
 	rf, _, sc := loadReplay(t, spec.Replay)
 	var res props.RunResult
 	runIn(t, "replay", func(t *testing.T) {
-		res = props.RunOne(t, rf.Property, rf.Seed, sc, props.RunOpts{Tape: rf.Tape, Replay: true, KeepTrace: true})
+		props.RunOne(t, rf.Property, rf.Seed, sc, props.RunOpts{Tape: rf.Tape, Replay: true, KeepTrace: true}, &res)
 	})
+	collectRaces(&res)
 	out := ReplayOut{
 		Reproduced: sameViolation(res.Violations, rf.Violation),
 		SameHash:   res.TraceHash == rf.TraceHash,
@@ -339,8 +353,9 @@ func minimize(t *testing.T, spec *Spec) {
 		var res props.RunResult
 		n++
 		runIn(t, fmt.Sprintf("m%d", n), func(t *testing.T) {
-			res = props.RunOne(t, rf.Property, seed, sc, props.RunOpts{Tape: tape, Replay: replay})
+			props.RunOne(t, rf.Property, seed, sc, props.RunOpts{Tape: tape, Replay: replay}, &res)
 		})
+		collectRaces(&res)
 		return res
 	}
 	best := sc
@@ -456,4 +471,44 @@ func minimize(t *testing.T, spec *Spec) {
 	_ = bestSteps
 	_ = prop
 	writeJSON(spec.Out, out)
+}
+
+// ---------------------------------------------------------------------------
+// race reports (only in -race builds; GORACE=log_path=<prefix> set by the driver)
+
+var raceLogOff int64
+
+// collectRaces reads what the race detector wrote during the last run and
+// turns every report into a violation (or, if no varlink frame is involved,
+// into a harness error).
+func collectRaces(res *props.RunResult) {
+	if !sim.RaceBuild {
+		return
+	}
+	prefix := os.Getenv("VERIF_RACELOG")
+	if prefix == "" {
+		return
+	}
+	path := fmt.Sprintf("%s.%d", prefix, os.Getpid())
+	b, err := os.ReadFile(path)
+	if err != nil || int64(len(b)) <= raceLogOff {
+		return
+	}
+	text := string(b[raceLogOff:])
+	raceLogOff = int64(len(b))
+	seen := map[string]bool{}
+	for _, rep := range props.SplitRaceReports(text) {
+		key, ok := props.RaceKey(rep)
+		if seen[key] {
+			continue
+		}
+		seen[key] = true
+		if !ok {
+			if res.HarnessErr == "" {
+				res.HarnessErr = "race report without a varlink frame (harness race):\n" + rep
+			}
+			continue
+		}
+		res.Violations = append(res.Violations, sim.Violation{Clause: "data-race", Key: key, Detail: rep})
+	}
 }
